@@ -3,7 +3,7 @@ import random
 
 import gen
 from check import Case
-from . import util, latfam, c16, c08
+from . import util, latfam, c16, c08, c04
 
 TARGETS = ['Properties/C15.vo', 'Run/ObsC15.vo']
 THEOREMS = util.theorems('C15')
@@ -12,7 +12,7 @@ SHARD_SIZE = 60
 RULE = ('base contexts: EXH(8 quick / 10 thorough) sampled + FAM + RND; variants built through the Definition API: 2 (quick) / 6 (thorough) '
         'random row+column permutations (move_object / move_property), transposition (Definition.transposed), a duplicated row (add_object), '
         'a duplicated column and a full column (add_property), each turned into a Context; the expected transformed table is computed by the '
-        'harness from the base table; observation on every variant = concept set, covers and Context.neighbors, joins/meets, relations, order predicates and operators on all ordered pairs; '
+        'harness from the base table; observation on every variant = concept set, covers and Context.neighbors, joins/meets, relations, order predicates and operators on all ordered pairs, the FCbO concept generators; '
         'non-trivial = variant of a context with >=4 concepts; distinct by (base table, transformation)')
 EXHAUSTIVE = {'quick': False, 'thorough': False}
 
@@ -96,6 +96,11 @@ def observe(exp, build, tier, seed):
     c = c08.observe(exp, seed, impl)
     parts.append(c.term)
     subs.append({'part': 'C08 order predicates and operators', 'detail': [x for x in (c.subs or []) if x.get('observed_packed', 0) < 0][:3]})
+    if isinstance(impl, Exception):
+        parts.append(f'({exp.coq()}, 0%nat, [(0, 9, [])])')
+    else:
+        parts.append(c04.observe(exp, impl).term)
+    subs.append({'part': 'C04 concept generators (fast_generate_from, fcbo_dual, get_concepts, iterconcepts)'})
     term = '(' + ', '.join(parts) + ')'
     return Case(term, exp.to_json(), nontrivial, subs, sig=(exp.key(), exp.tag))
 
